@@ -465,6 +465,9 @@ def gen_case(r: random.Random, tier: str, force: dict | None = None) -> dict | N
     case['tz'] = r.randint(1, 5)
     case['aux'] = r.randint(0, 1 << 30)
     case['n_delta'] = r.choice([-3, -1, 0, 0, 1, 2, 3])
+    # `exact=True`: the rounding refuses an operand it cannot hold, and is otherwise a rounding like any
+    # other -- a representable operand comes back unchanged and costs one draw
+    case['exact'] = case['route'] in ('round', 'round_at') and r.random() < 0.2
     return case
 
 
@@ -513,8 +516,10 @@ def plan_route(case: dict, absx: Fraction, negative: bool, aux: random.Random) -
     dyadic = absx.denominator & (absx.denominator - 1) == 0
     if route in ('round', 'round_at') or (not dyadic and route != 'op_div'):
         if route == 'round_at':
-            return {'route': 'round_at', 'x': str(v), 'enc': case['enc'], 'tz': case['tz'], 'n_arg': case['n_arg']}
-        return {'route': 'round', 'x': str(v), 'enc': case['enc'], 'tz': case['tz'], 'n_arg': None}
+            return {'route': 'round_at', 'x': str(v), 'enc': case['enc'], 'tz': case['tz'], 'n_arg': case['n_arg'],
+                    'exact': bool(case.get('exact'))}
+        return {'route': 'round', 'x': str(v), 'enc': case['enc'], 'tz': case['tz'], 'n_arg': None,
+                'exact': bool(case.get('exact'))}
     if route in ('op_add', 'op_sub'):
         b = Fraction(aux.randint(-64, 64), 1 << aux.randint(0, 6))
         a = v - b if route == 'op_add' else v + b
@@ -553,7 +558,11 @@ def thunk_for(plan: dict, ctx):
         val, enc = _mk_value(abs(v), v < 0, plan['enc'], plan['tz'])
         if route == 'round_at':
             n = plan['n_arg']
+            if plan.get('exact'):
+                return (lambda: ctx.round_at(val, n, exact=True)), enc
             return (lambda: ctx.round_at(val, n)), enc
+        if plan.get('exact'):
+            return (lambda: ctx.round(val, exact=True)), enc
         return (lambda: ctx.round(val)), enc
     args = [_fl(Fraction(a)) for a in plan['args']]
     fn = {'op_add': ops.add, 'op_sub': ops.sub, 'op_mul': ops.mul, 'op_div': ops.div,
@@ -709,6 +718,8 @@ def run_case(case: dict) -> dict:
         t, tclass = gen_offset(aux, k_gen, allow_nd)
         if k is None and t.denominator > (1 << 9):
             t, tclass = Fraction(aux.randint(1, 255), 256), 'rand'
+        if case.get('exact') and route0 in ('round', 'round_at') and aux.random() < 0.8:
+            t, tclass = Fraction(0), 'zero'
         if m == 0 and t == 0:
             t, tclass = Fraction(1, 2), 'grid_half'
         if route0 == 'op_sqrt':
@@ -769,6 +780,21 @@ def run_case(case: dict) -> dict:
         return done()
     if ob0.get('exc') == 'ValueError' and k is None and enc in ('frac', 'op'):
         return skip('k=None needs exact arithmetic for this operand')
+    if plan.get('exact'):
+        route_used = route_used + '_exact'
+        info['route'] = route_used
+        if ob0.get('exc') == 'ValueError':
+            # refused as inexact: right for an operand off the grid (nothing was rounded: at most the one
+            # draw), wrong for a representable one
+            e0 = orc.expectation(grid, operand, negative, k if k is not None else 1, case['mode'], n_arg)
+            if e0['beyond'] or e0['top_gap']:
+                return skip('exact rounding at or beyond the largest value (C01 territory)')
+            if e0['representable']:
+                vio('representable-refused-as-inexact', {'got': ob0, 'operand': operand.describe()})
+            elif len(calls0) > 1:
+                vio('draw-count', {'draws': calls0, 'expected': 'at most 1', 'first': ob0})
+            info['exact_refused'] = True
+            return done()
     if len(calls0) != 1:
         vio('draw-count', {'draws': calls0, 'expected': 1, 'first': ob0})
         return done()
